@@ -285,6 +285,7 @@ func RunBatcherV1(t *testing.T, sc *Scenario, out io.Writer) {
 		lg := NewLogger(out, start)
 		currentLogger.Store(lg)
 		sc.WriteHeader(lg.w)
+		lg.w.Flush() // the scenario is on disk before the code under test runs: a crash leaves a replayable file
 		r := &v1run{sc: sc, log: lg, objs: map[int64]b1.IOperation{}}
 		r.lim = &fakeLimiter1{log: lg, busy: sc.BusyCap}
 		for i, wc := range sc.Watchers {
